@@ -454,7 +454,7 @@ def run(ctx: RunContext) -> int:
         raise HarnessError("gcc not found")
     n_layout = ctx.scale(380, 6000)
     n_general = ctx.scale(90, 1500)
-    gcc_every = 6 if ctx.quick else 1
+    gcc_every = 12 if ctx.quick else 1
     res = run_shards(shard, [(i, 16, derive_seed(ctx.seed, i), n_layout, n_general, gcc_every) for i in range(16)])
     res.notes.append(f"exhaustive sub-domain complete: all {sum(1 for _ in all_sequences())} sequences of <= 4 fields over "
                      "{1,2,4,8}-byte scalars and arrays of length 1 and 3, as struct and as array element of a wrapper message, auto_pad on and off")
